@@ -111,6 +111,21 @@ func runMutants(id, repo, root string) *sensitivity {
 	if err != nil {
 		return s
 	}
+	// reports already present on the unmutated tree do not count as detections
+	baseline := map[string]bool{}
+	{
+		cmd := exec.Command(self, "-property", id, "-tier", "quick", "-repo", repo, "-root", root, "-no-evidence")
+		cmd.Env = os.Environ()
+		out, _ := cmd.CombinedOutput()
+		for _, l := range strings.Split(string(out), "\n") {
+			if strings.HasPrefix(l, "MUTANT-REPORT ") {
+				f := strings.Fields(strings.TrimPrefix(l, "MUTANT-REPORT "))
+				if len(f) >= 3 {
+					baseline[f[1]+" "+mutantKey(l)] = true
+				}
+			}
+		}
+	}
 	tmp := os.Getenv("TMPDIR")
 	if tmp == "" {
 		tmp = "/tmp"
@@ -142,6 +157,10 @@ func runMutants(id, repo, root string) *sensitivity {
 				var hits []string
 				for _, l := range strings.Split(string(out), "\n") {
 					if strings.HasPrefix(l, "MUTANT-REPORT ") {
+						f := strings.Fields(strings.TrimPrefix(l, "MUTANT-REPORT "))
+						if len(f) >= 3 && baseline[f[1]+" "+mutantKey(l)] {
+							continue
+						}
 						hits = append(hits, strings.TrimPrefix(l, "MUTANT-REPORT "))
 					}
 				}
@@ -190,4 +209,18 @@ func copyTree(repo, dst string) error {
 		return fmt.Errorf("rsync: %v: %s", err, firstLine(string(out)))
 	}
 	return nil
+}
+
+// mutantKey extracts the obligation key (between the rule id and the bracketed verdict) of a report line.
+func mutantKey(l string) string {
+	l = strings.TrimPrefix(l, "MUTANT-REPORT ")
+	f := strings.SplitN(l, " ", 3)
+	if len(f) < 3 {
+		return l
+	}
+	rest := f[2]
+	if i := strings.Index(rest, " ["); i >= 0 {
+		return rest[:i]
+	}
+	return rest
 }
